@@ -75,7 +75,11 @@ func runC31(c *an.Ctx) {
 	if set != nil {
 		keyedByCommitter, keyedByEndorser := false, false
 		// the set value is a lookup signCount[proposer]; updates go through other lookups of the same outer map
-		for _, b := range gc.Blocks {
+		var gcBlocks []*ssa.BasicBlock
+		for _, g := range an.InlineReach(gc) {
+			gcBlocks = append(gcBlocks, g.Blocks...)
+		}
+		for _, b := range gcBlocks {
 			for _, in := range b.Instrs {
 				mu, ok := in.(*ssa.MapUpdate)
 				if !ok {
